@@ -212,10 +212,18 @@ def correspond(ck: Check, scen, results, keys, what):
 
 # ------------------------------------------------------------------ trace specifications (on the implementation)
 
-def spec_c05(obs, info=None):
+def spec_c05(obs, info=None, lines=None):
     if info and info.get("extra_accepted"):
         return "second-attempt-accepted:" + info["extra_accepted"][0], len(obs) - 1
-    return spec_c05_trace(obs)
+    r = spec_c05_trace(obs)
+    if r is None and lines is not None:
+        # "a disconnect … that has taken effect": a force_disconnect() call, and a disconnect() call that has returned, leave the
+        # object closed at whatever point of its life they were made (before the first connect included) - it is used up
+        for i, (l, o) in enumerate(zip(lines[1:], obs[1:]), 1):
+            d = parse(o)
+            if (l == "cn.ev force" or d.get("disc") == "done") and d["st"] != "closed":
+                return "not-closed-after-" + ("force-disconnect" if l == "cn.ev force" else "disconnect"), i
+    return r
 
 
 def spec_c05_trace(obs):
